@@ -26,6 +26,7 @@ the argument expressions.
 -/
 import EtkVerif.Asm.Corollaries
 import EtkVerif.Asm.FullTextPest
+import EtkVerif.Asm.FullTextAsm
 namespace EtkVerif.C10
 open Asm
 
@@ -77,6 +78,16 @@ open Asm.Layout Asm.FullText in
 theorem C10_text (head : List BlankLine) (items : List FullText.Item) (h : FullText.WF head items) :
     parseAsm (FullText.render head items) = .ok (items.map (fun x => x.stmt.node)) :=
   parse_full head items h
+
+open Asm.Layout Asm.FullText in
+/-- … and for programs without file directives `Ingest::preprocess` reads no file and hands the assembler exactly the
+ops of those nodes, definitions and invocations included: `assemble` on the TEXT is `assemble` on these ops, to which
+`C10_expansion`, `C13_iff` and the evaluation theorems apply -/
+theorem C10_text_preprocess (fs : FS) (cwd : PathC) (prog : Program) (tr : List Event)
+    (head : List BlankLine) (items : List FullText.Item) (h : FullText.WF head items) (ops : List AOp)
+    (hops : items.mapM (fun x => x.stmt.aop?) = some ops) (fuel : Nat) (hf : items.length + 2 ≤ fuel) :
+    preprocess fs cwd fuel prog (FullText.render head items) tr = .ok (ops.map RawOp.op, tr) :=
+  preprocess_full fs cwd prog tr head items h ops hops fuel hf
 
 open Asm.Layout Asm.ExprText Asm.FullText in
 -- non-vacuity of `C10_text`: a program with a macro definition (local label, nested invocation with a `$variable` and a
